@@ -198,6 +198,37 @@ def relocFirst (fnext N : Nat) (b : Bytes) : Bytes :=
   if b.length < 27 || b.getD 4 0 != 4 then b else
   b.take 19 ++ Bytes.ofLE 8 (relocOff fnext N (Bytes.le ((b.drop 19).take 8))) ++ b.drop 27
 
+/-- `crcmix=1`: the checksum setting alternates from one binlog file to the next (a master on which
+    `SET GLOBAL binlog_checksum` was changed: the change rotates the log, and every file's FORMAT_DESCRIPTION event
+    announces that file's algorithm). File number k (0 = the first) uses `cfg.crc` xor (k odd). The artificial ROTATE
+    sent when the dump thread moves on still follows the old file's setting, as the sender has not read the new
+    file's description yet. Same code as `W.layoutAux` otherwise. -/
+def cfgOfFile (cfg : W.Cfg) (k : Nat) : W.Cfg := { cfg with crc := if k % 2 == 1 then !cfg.crc else cfg.crc }
+
+def layoutAuxMix (cfg : W.Cfg) : Nat → List W.AEv → Bytes → Nat → List W.Laid
+  | _, [], _, _ => []
+  | k, e :: es, file, off =>
+    let c := cfgOfFile cfg k
+    let (b, next) := W.event (W.crcOf c off) { ts := e.ts } e.typ off e.body
+    let here : W.Laid := ⟨file, off, next, b, e.ts, e.tag, e.unitStart⟩
+    let fakeRot (f : Bytes) : W.Laid :=
+      ⟨file, next, next, (W.event (W.crcOf c next) { flags := 0x20 } 4 0 (W.rotateBody 4 f) (some 0)).1, 0, .rotateTo f, false⟩
+    match e.tag with
+    | .rotateTo f =>
+      let (fb, fnext) := W.fdeEvent (cfgOfFile cfg (k + 1)) 4 none
+      here :: fakeRot f :: ⟨f, 4, fnext, fb, 0, .fileHead, false⟩ :: layoutAuxMix cfg (k + 1) es f fnext
+    | .stopThenRotateTo f =>
+      let (fb, fnext) := W.fdeEvent (cfgOfFile cfg (k + 1)) 4 none
+      { here with tag := .none } :: fakeRot f :: ⟨f, 4, fnext, fb, 0, .fileHead, false⟩ :: layoutAuxMix cfg (k + 1) es f fnext
+    | _ => here :: layoutAuxMix cfg k es file next
+
+def layoutMix (cfg : W.Cfg) (h : W.History) : List W.Laid :=
+  let (fb, fnext) := W.fdeEvent cfg 4 none
+  ⟨W.firstFile, 4, fnext, fb, 0, .fileHead, false⟩ :: layoutAuxMix cfg 0 (h.flatMap (W.unitEvs cfg)) W.firstFile fnext
+
+def filesOf (h : W.History) : List Bytes :=
+  W.firstFile :: h.flatMap fun u => match u with | .rotate f => [f] | .restart f => [f] | _ => []
+
 def handleHist (a : Args) : String :=
   let cfg := parseCfg (arg a "cfg")
   let tables := (splitNE (arg a "tables") ";").map parseTable
@@ -215,17 +246,44 @@ def handleHist (a : Args) : String :=
   let E := extOf a
   let localCivil : Nat → Bytes := look [] (parseAssoc (arg a "civil"))
   let txt : Nat → W.CellVal → Bytes := fun md v => W.text md localCivil E.fmtFloat32 E.fmtFloat64 v
-  let packets := W.serve cfg h p
+  let mix := argBool a "crcmix"
+  let full : List W.Laid := if mix then layoutMix cfg h else W.layout cfg h
+  let rest := W.fromPos full p
+  -- what the master sends for COM_BINLOG_DUMP(p) (as W.serve, over `full`): artificial ROTATE, the file's FDE
+  -- (artificial, announcing that file's algorithm, when p is past the head), then the events from p on
+  let cfgP := if mix then cfgOfFile cfg ((filesOf h).idxOf p.file) else cfg
+  let fakeRot := (W.event (W.crcOf cfg 0) { flags := 0x20 } 4 0 (W.rotateBody p.offset p.file) (some 0)).1
+  let headFde : List Bytes := match rest with
+    | e :: _ => if e.tag == .fileHead then [] else [(W.fdeEvent cfgP 4 (some 0)).1]
+    | [] => [(W.fdeEvent cfgP 4 (some 0)).1]
+  let packets := fakeRot :: headFde ++ rest.map (·.bytes)
   let packets := if bias == 0 then packets else match packets with
     | f :: rest => relocFirst fnext bias f :: rest.map (relocPacket fnext bias)
     | [] => []
   let packets := if argBool a "pad" then packets.map (padPacket cfg (h.flatMap rowsOfUnit)) else packets
+  -- noise=<i>:<hex>;…  — extra packets the master sends right after the laid-out event number i (counted over the
+  -- whole log, so the same noise shows up wherever a dump starts): ignorable events and statements the parser does
+  -- not know, also INSIDE transactions (the Spec grammar only has them between units). The Spec's expectation is
+  -- unchanged: such packets must not alter grouping, labels or the kept position. Their next_position field is set
+  -- to that of the event they follow (they claim no room of their own).
+  let noise : List (Nat × Bytes) := (splitNE (arg a "noise") ";").filterMap fun t =>
+    match t.splitOn ":" with | [i, b] => some (n i, hb b) | _ => none
+  let packets := if noise.isEmpty then packets else
+    let laidN := rest.length
+    let pre := packets.length - laidN
+    let base := full.length - laidN
+    let setNext (nz pred : Bytes) : Bytes :=
+      if nz.length < 19 || pred.length < 19 then nz else nz.take 13 ++ (pred.drop 13).take 4 ++ nz.drop 17
+    let rec weave (k : Nat) : List Bytes → List Bytes
+      | [] => []
+      | b :: bs => b :: ((noise.filter (·.1 == base + k)).map (fun nz => setNext nz.2 b)) ++ weave (k + 1) bs
+    packets.take pre ++ weave 0 (packets.drop pre)
   -- packets the harness wants injected / replaced: inject=<index>:<hex>
   let packets := match (arg a "inject").splitOn ":" with
     | [i, b] => packets.take (n i) ++ [hb b] ++ packets.drop (n i)
     | _ => packets
   let packets := if hasArg a "cut" then packets.take (argNat a "cut") else packets
-  let exp := (W.expected cfg h p).map fun t => { t with now := ⟨rn t.now.file, rl t.now.offset⟩, next := ⟨rn t.next.file, rl t.next.offset⟩ }
+  let exp := (W.expectedAux rest p).map fun t => { t with now := ⟨rn t.now.file, rl t.now.offset⟩, next := ⟨rn t.next.file, rl t.next.offset⟩ }
   let failAt := if hasArg a "failat" then some (argNat a "failat") else none
   let failKey : Option W.Pos := match failAt with | some j => (exp[j]?).map (·.next) | none => none
   let handler : Transaction → Bool := fun tx =>
@@ -247,8 +305,10 @@ def handleHist (a : Args) : String :=
       | .deliver _ acc => 'd' :: verdicts acc bs
       | .stop _ _ => ['x']
   let vd := String.ofList (verdicts st packets)
-  let bnd := String.intercalate "," ((W.boundaries cfg h).map fun b => showPos (rn b.file) (rl b.offset))
-  let ep0 := W.endPos cfg h p
+  let bounds : List W.Pos := (full.filterMap fun e => if e.unitStart || e.tag == .fileHead then some ⟨e.file, e.start⟩ else none) ++
+    (match full.getLast? with | some e => [⟨e.file, e.next⟩] | none => [])
+  let bnd := String.intercalate "," (bounds.map fun b => showPos (rn b.file) (rl b.offset))
+  let ep0 := W.endPosAux rest p
   let ep : W.Pos := ⟨rn ep0.file, rl ep0.offset⟩
   s!"packets={String.intercalate "," (packets.map toHex)} model={model} spec={spec} endpos={showPos ep.file ep.offset} boundaries={bnd} vd={vd}"
 
